@@ -524,6 +524,24 @@ func (x *Explorer) libModel(st *State, f *Frame, ins ssa.Instruction, key string
 			st.note("binary.PutUint on a longer buffer: other bytes havocked")
 		}
 		return nil, true
+	case "encoding/binary.littleEndian.AppendUint64", "encoding/binary.littleEndian.AppendUint32", "encoding/binary.bigEndian.AppendUint64", "encoding/binary.bigEndian.AppendUint32":
+		// append(b, the 4 or 8 bytes of v...): a temporary holding the encoding, then the ordinary append
+		bits, name := int64(8), "le64"
+		if strings.HasSuffix(key, "32") {
+			bits, name = 4, "le32"
+		}
+		if strings.Contains(key, "bigEndian") {
+			name = "b" + name[1:]
+		}
+		b := args[1].(VSlice)
+		tmp := x.newSlice(st, b.Elem, IntLit(bits), IntLit(bits), true)
+		arr := st.heapGet("[]"+e.typeKey(b.Elem), ArrSort(ArrSort(SInt)))
+		st.heapSet("[]"+e.typeKey(b.Elem), Store(arr, tmp.Arr, st.freshSym("appenduint_row", ArrSort(SInt))))
+		v := asInt(args[2])
+		enc := UF(name, SInt, v)
+		st.addFact(Eq(UF(name+"dec", SInt, enc), v))
+		st.assume(Eq(st.bval(tmp), enc))
+		return x.doAppend(st, b, tmp), true
 	case "encoding/binary.littleEndian.Uint64", "encoding/binary.littleEndian.Uint32", "encoding/binary.bigEndian.Uint64", "encoding/binary.bigEndian.Uint32":
 		bits, name := int64(8), "le64"
 		if strings.HasSuffix(key, "32") {
